@@ -13,7 +13,7 @@ for p in "$@"; do
   out=$(cd /verif && VERIF_REPO="$d" VERIF_EVIDENCE_DIR="$d/evidence" ./run "$p" --tier "${TIER:-quick}" 2>&1)
   code=$?
   echo "== $p exit=$code"
-  echo "$out" | grep -E "VIOLATION|KNOWN-FINDING|HARNESS|^\[C" | head -8
+  echo "$out" | grep -E "VIOLATION|HARNESS|^\[C" | head -8
   [ $code -eq 1 ] || rc=1
 done
 rm -rf "$d"
